@@ -91,7 +91,9 @@ class MFS:
         if rel == "":
             return DIR
         if rel not in self.kind:
-            raise Unsupported("path outside the model universe: %r" % rel)
+            # a path outside the universe can never come into existence (creating it is
+            # Unsupported), so a *query* about it is answered: absent
+            return ABSENT
         return self.kind[rel]
 
     def is_(self, rel, what):
